@@ -132,7 +132,7 @@ def explained_by_or(g, s, s2, ignore):
     try:
         e = build.Builder(ENV).build_all(or_to_mf(g))
         if ignore:
-            e = e.ignore(pp.c_style_comment)
+            e = e.ignore(pp.c_style_comment).ignore(pp.python_style_comment)
         return parse_view(e, s) == parse_view(e, s2)
     except Exception:
         return False
@@ -159,7 +159,7 @@ def metamorphic(ctx, name, e, e_ign, s, replay_obj):
                               dict(replay_obj, input=s, pos=p, ins=w, kind="ws"))
         if e_ign is not None:
             base_i = parse_view(e_ign, s)
-            for cm in ("/*c*/", " /* a b */ "):
+            for cm in ("/*c*/", " /* a b */ ", "#p\n/*c*/", " /*c*/ #p\n", "#p\n #q\n/*c*//*d*/"):
                 s2 = s[:p] + cm + s[p:]
                 got = parse_view(e_ign, s2)
                 n += 1
@@ -169,7 +169,7 @@ def metamorphic(ctx, name, e, e_ign, s, replay_obj):
                     if explained_by_or(replay_obj.get("grammar"), s, s2, True):
                         key = "whitespace:or-longest-counts-skipped-whitespace"
                     ctx.violation(key,
-                                  "%s.ignore(c_style_comment): inserting %r at %d of %r changes the result: %r -> %r" % (name, cm, p, s, base_i[1:], got[1:] if got[0] == "ok" else got),
+                                  "%s.ignore(c_style_comment).ignore(python_style_comment): inserting %r at %d of %r changes the result: %r -> %r" % (name, cm, p, s, base_i[1:], got[1:] if got[0] == "ok" else got),
                                   dict(replay_obj, input=s, pos=p, ins=cm, kind="comment"))
     return n
 
@@ -328,14 +328,14 @@ def correspond(ctx):
         groups.append((g, ENV, sorted(set(inputs + mod))[:8], [("none",)], [("parse", True)]))
         try:
             e = build.Builder(ENV).build_all(g)
-            e_ign = build.Builder(ENV).build_all(g).ignore(pp.c_style_comment) if i % 3 == 0 else None
+            e_ign = build.Builder(ENV).build_all(g).ignore(pp.c_style_comment).ignore(pp.python_style_comment) if i % 3 == 0 else None
         except build.Unbuildable:
             continue
         for s in inputs:
             k = guarded(lambda: metamorphic(ctx, repr(g), e, e_ign, s, {"grammar": g}), 5.0)
             nchecks += k or 0
     for name, e, inputs in example_grammars():
-        e_ign = e.copy().ignore(pp.c_style_comment)
+        e_ign = e.copy().ignore(pp.c_style_comment).ignore(pp.python_style_comment)
         for s in inputs:
             nchecks += guarded(lambda: metamorphic(ctx, name, e, e_ign, s, {"example": name}), 20.0) or 0
     combine_converse(ctx)
@@ -383,7 +383,7 @@ def replay(ctx, obj):
         else:
             e = [x for x in example_grammars() if x[0] == r["example"]][0][1]
         if r["kind"] == "comment":
-            e = e.copy().ignore(pp.c_style_comment)
+            e = e.copy().ignore(pp.c_style_comment).ignore(pp.python_style_comment)
         s, p, w = r["input"], r["pos"], r["ins"]
         a, b = parse_view(e, s), parse_view(e, s[:p] + w + s[p:])
         print(a, b)
